@@ -39,6 +39,8 @@ def run(ctx, rep):
     rep.guarded("R08-DERIVED", lambda: c08.r_derived(sh, rep))
     rep.rule("R18-ZIP", "Parameter::validate compares the number of fields / elements wherever it walks a value and its schema in lockstep: zip stops at the shorter side", floor=1)
     rep.guarded("R18-ZIP", lambda: r_zip(sh, rep))
+    rep.rule("R18-ASKINDEX", "the interactive construction of a parameter builds a constructor with the index the schema declares for the chosen alternative, not with its position in the list", floor=1)
+    rep.guarded("R18-ASKINDEX", lambda: r_askindex(sh, rep))
     rep.rule("R18-TOTAL", "no unreviewed panic site reachable from Validator::apply / Parameter::validate / Blueprint::apply_parameter", floor=3)
     from . import c20
     def total():
@@ -211,3 +213,20 @@ def r_zip(sh, rep):
             rep.check(found, "R18-ZIP", "%s#zip#%d" % (q, n), sh.loc(PRM, node), "%s walks `%s` and `%s` in lockstep without comparing their lengths first: zip stops at the shorter one, so a constructor given too few or too many fields conforms to the schema and is applied" % (q, names[0][:30], names[1][:30] if len(names) > 1 else "?"), sample={"operands": names})
     if n < 1:
         raise AnchorMissing("zip of values and schemas in blueprint/parameter.rs")
+
+
+def r_askindex(sh, rep):
+    """`aiken blueprint apply` without an argument asks for the parameter piece by piece. For a data-type it lets the user
+    pick an alternative of the schema's `anyOf` and must build Constr <declared index> — the alternatives of a type with
+    @tag decorators are not listed in index order, so the position of the choice is another constructor (or none)."""
+    AP = "crates/aiken/src/cmd/blueprint/apply.rs"
+    f = find_fn(sh.file(AP), "ask_schema")
+    rep.touched(AP, "ask_schema")
+    n = 0
+    for c in walk(f["body"]):
+        if c.get("k") == "Call" and last(call_name(c) or "") == "constr" and c["args"]:
+            n += 1
+            a0 = sh.nsrc(AP, c["args"][0])
+            rep.check(".index" in a0, "R18-ASKINDEX", "ask_schema#constr#%d" % n, sh.loc(AP, c), "ask_schema builds the chosen constructor with `%s`, which is not the alternative's declared `index`: for `Mode { @tag(1) Strict  @tag(0) Lenient }` choosing Strict applies Constr 0 (Lenient) and publishes the wrong code and hash" % a0[:60], sample={"index_expr": a0[:80]})
+    if n < 1:
+        raise AnchorMissing("UplcData::constr in ask_schema")
